@@ -45,6 +45,12 @@ D == Ref("d")
 
 T2Rows == <<[a |-> 0, c |-> 1], [a |-> 1, c |-> 0], [a |-> 1, c |-> 1]>>
 LeafT2 == Leaf("T2", "sql", {"a", "c"}, 0, -1)
+\* the fixed operand of the final join: the bare SQL leaf, or its deduplication projected to {a}
+\* (a "deduplicated" relation that does have duplicate rows)
+FixedTree(n) == IF n = "T2" THEN PlainSel(LeafT2)
+                ELSE ApplyUnary(Proj({"a"}), ApplyUnary(Dedup, PlainSel(LeafT2), DefaultOpts), DefaultOpts)
+FixedRows(n) == IF n = "T2" THEN T2Rows ELSE ApplyOp(Proj({"a"}), ApplyOp(Dedup, T2Rows))
+FixedCols(n) == IF n = "T2" THEN {"a", "c"} ELSE {"a"}
 LeafL(e, rows) == Leaf("L", e, {"a", "b"}, Len(rows), Len(rows))
 Engines == {"sql", "it1", "it2"}
 Env == [L |-> l1, T2 |-> T2Rows]
@@ -56,6 +62,7 @@ BaseOps == {Proj({"a"}), Proj({"b"}), Sel(Cmp("eq", A, Lit(1))), Dedup, Sort(Tot
 
 AllFinalOps ==
     {Calc("e", Fn("neg", <<A>>)), Calc("e", Fn("add", <<A, D>>)),
+     Calc("b", Fn("neg", <<A>>)),      \* re-creates a column an earlier projection dropped (valid only then)
      Proj({"a"}), Proj({"b"}), Proj({"a", "d"}), Proj({}), Proj({"a", "b"}),
      Sel(Cmp("eq", A, Lit(0))), Sel(Cmp("lt", B, A)), Sel(Cmp("gt", D, Lit(0))), Sel(PLit(FALSE)),
      Dedup,
@@ -63,10 +70,15 @@ AllFinalOps ==
      Slice(0, 1), Slice(1, 3)}
 \* the documented no-op forms, issued with every option combination as well
 NoOpForms(cols) == {Sort(<<>>), Slice(0, -1), Proj(cols), Sel(PLit(TRUE))}
+HasSortInHist == \E i \in DOMAIN hist : hist[i].f = "un" /\ hist[i].op.o = "sort"
 FinalMenu(cols) == {op \in (IF FinalOps = "all" THEN AllFinalOps
-                            ELSE {Calc("e", Fn("neg", <<A>>)), Proj({"a"}), Proj({"b"}), Proj({"a", "b"}), Sel(Cmp("eq", A, Lit(0))), Dedup,
+                            ELSE {Calc("e", Fn("neg", <<A>>)), Calc("b", Fn("neg", <<A>>)), Proj({"a"}), Proj({"b"}), Proj({"a", "b"}), Sel(Cmp("eq", A, Lit(0))), Dedup,
                                   Sort(TotalAB), Slice(0, 1)})
-                      : BeginErr(op, cols) = "none" /\ ~(op.o = "calc" /\ op.tag \in cols)}
+                      : /\ BeginErr(op, cols) = "none" /\ ~(op.o = "calc" /\ op.tag \in cols)
+                        \* re-creating a dropped tag while a recorded sort may still name it is the documented
+                        \* misuse F11 (column tags are absolute identifiers): not requested after a sort, nor on a
+                        \* SQL relation (whose Select puts the calculation BELOW the recorded projection)
+                        /\ ~(op.o = "calc" /\ op.tag = "b" /\ (HasSortInHist \/ KindOf(Eng(rel)) = "sql"))}
                      \cup NoOpForms(cols)
 
 NCalcs(h) == Cardinality({i \in DOMAIN h : h[i].f = "un" /\ h[i].op.o = "calc"})
@@ -78,11 +90,16 @@ CallResult(c, r) ==
     CASE c.f = "un"   -> IF CtorErr(c.op) # "none" THEN Err(CtorErr(c.op)) ELSE ApplyUnary(c.op, r, c.opts)
       [] c.f = "xfer" -> TransferTo(r, c.dest)
       [] c.f = "mat"  -> Materialize(r, c.name)
-      [] c.f = "join" -> JoinRel(r, PlainSel(LeafT2), c.p, c.backtrack, c.transfer)
+      [] c.f = "join" -> JoinRel(r, FixedTree(c.fixed), c.p, c.backtrack, c.transfer)
+      \* Join(p).partial(fixed, is_lhs=True).apply(r, ...): the fixed operand on the LEFT
+      [] c.f = "pjoinl" -> JoinRelL(FixedTree(c.fixed), r, c.p, c.backtrack, c.transfer)
+      [] c.f = "chainself" -> ApplyBinary(ChainOp, r, r)
 
 CallRows(c, r, rows) ==
     CASE c.f = "un" -> ApplyOp(c.op, rows)
-      [] c.f = "join" -> JoinRows(rows, T2Rows, {x \in Cols(r) \cap {"a", "c"} : IsKey(x)}, c.p)
+      [] c.f = "join" -> JoinRows(rows, FixedRows(c.fixed), {x \in Cols(r) \cap FixedCols(c.fixed) : IsKey(x)}, c.p)
+      [] c.f = "pjoinl" -> JoinRows(FixedRows(c.fixed), rows, {x \in Cols(r) \cap FixedCols(c.fixed) : IsKey(x)}, c.p)
+      [] c.f = "chainself" -> rows \o rows
       [] OTHER -> rows
 
 BaseCalls(r, h) ==
@@ -90,12 +107,15 @@ BaseCalls(r, h) ==
         op \in {o \in BaseOps : BeginErr(o, Cols(r)) = "none" /\ ~(o.o = "calc" /\ NCalcs(h) > 0)}}
       \cup {[f |-> "xfer", dest |-> e] : e \in Engines}
       \cup (IF NMats(h) < 2 THEN {[f |-> "mat", name |-> IF NMats(h) = 0 THEN "m1" ELSE "m2"]} ELSE {})
+      \* the relation chained with itself (both branches come from the same source engine)
+      \cup (IF \E i \in DOMAIN h : h[i].f = "chainself" THEN {} ELSE {[f |-> "chainself"]})
 
 FinalCalls(r) ==
     {[f |-> "un", op |-> op, opts |-> o] : op \in FinalMenu(Cols(r)), o \in AllOpts}
-      \cup {[f |-> "join", p |-> p, backtrack |-> bt, transfer |-> tr] :
+      \cup {[f |-> jf, fixed |-> "T2", p |-> p, backtrack |-> bt, transfer |-> tr] : jf \in {"join", "pjoinl"},
               p \in {q \in {PLit(TRUE), Cmp("le", A, CC), Cmp("le", D, CC)} : ReqP(q) \subseteq Cols(r) \cup {"a", "c"}},
               bt \in BOOLEAN, tr \in BOOLEAN}
+      \cup {[f |-> "join", fixed |-> "T2pd", p |-> PLit(TRUE), backtrack |-> bt, transfer |-> tr] : bt \in BOOLEAN, tr \in BOOLEAN}
 
 \* Starts \subseteq {"none", "calc", "xmat"}: pre-seeded histories that do not
 \* count against the depth bound - "calc": a calculated column d at the source
@@ -189,7 +209,7 @@ RECURSIVE NaiveCols(_, _)
 NaiveCols(h, cols) ==
     IF h = <<>> THEN cols
     ELSE NaiveCols(Tail(h), CASE Head(h).f = "un" -> OpCols(Head(h).op, cols)
-                              [] Head(h).f = "join" -> cols \cup {"a", "c"}
+                              [] Head(h).f \in {"join", "pjoinl"} -> cols \cup FixedCols(Head(h).fixed)
                               [] OTHER -> cols)
 ColumnsKept == Cols(rel) = NaiveCols(hist, {"a", "b"})
 
@@ -267,7 +287,7 @@ NoPlacementColumnError ==
 PBase == ProcessTop(prev, {})
 PLast == hist[Len(hist)]
 PRes == IF IsErr(PBase) THEN PBase ELSE CallResult(PLast, PBase.t)
-PApplies == final /\ PLast.f \in {"un", "join"} /\ ~KF8Tree(prev) /\ ~KF2
+PApplies == final /\ PLast.f \in {"un", "join", "pjoinl"} /\ ~KF8Tree(prev) /\ ~KF2
 ProcessedBaseSound ==
     PApplies =>
         /\ ~IsErr(PBase)
@@ -299,7 +319,7 @@ Rejects(r) ==
     ELSE {[call |-> c, err |-> CallResult(c, r).err] :
             c \in {x \in {[f |-> "un", op |-> op, opts |-> o] : op \in IllOps \cup RestrictedOps, o \in SomeOpts}
                             \cup FinalCalls(r)
-                            \cup {[f |-> "join", p |-> Cmp("eq", Ref("z"), A), backtrack |-> TRUE, transfer |-> TRUE]}
+                            \cup {[f |-> "join", fixed |-> "T2", p |-> Cmp("eq", Ref("z"), A), backtrack |-> TRUE, transfer |-> TRUE]}
                         : IsErr(CallResult(x, r))}}
 
 IllRejected ==
@@ -307,8 +327,8 @@ IllRejected ==
                  IsErr(CallResult([f |-> "un", op |-> op, opts |-> o], rel))
 
 (* ---------------- emission ---------------- *)
-Fired == final /\ hist[Len(hist)].f \in {"un", "join"} /\
-         (LET c == hist[Len(hist)] IN c.f = "join" \/ c.opts.pref # "none")
+Fired == final /\ hist[Len(hist)].f \in {"un", "join", "pjoinl"} /\
+         (LET c == hist[Len(hist)] IN c.f \in {"join", "pjoinl"} \/ c.opts.pref # "none")
 
 EmitState ==
     Emit =>
